@@ -280,7 +280,7 @@ def check_located(res, aname, N, bl, strand, scale=False):
         if o[0] != "ok":
             res.deviation("__getitem__", c, o[1], text[:b], sig="slice-open-raises")
         elif str(o[1]) != text[:b] or consistent(o[1], G) is not True:
-            res.deviation("__getitem__", c, str(o[1]), text[:b], sig="slice-open-inconsistent")
+            res.deviation("__getitem__", c, [str(o[1]), lib.canon_loc(o[1].location_on_parent)], [text[:b], Pm[:b]], sig="slice-open-inconsistent")
     for a in range(0, ln):
         o = lib.outcome(lambda: s[a:])
         res.trans()
@@ -288,7 +288,7 @@ def check_located(res, aname, N, bl, strand, scale=False):
         if o[0] != "ok":
             res.deviation("__getitem__", c, o[1], text[a:], sig="slice-open-raises")
         elif str(o[1]) != text[a:] or consistent(o[1], G) is not True:
-            res.deviation("__getitem__", c, str(o[1]), text[a:], sig="slice-open-inconsistent")
+            res.deviation("__getitem__", c, [str(o[1]), lib.canon_loc(o[1].location_on_parent)], [text[a:], Pm[a:]], sig="slice-open-inconsistent")
     # bounds outside [0, len]: negative starts / ends / indices and ends beyond the length.  Python-style counting from
     # the end is not promised anywhere, so a documented refusal is fine; but whatever IS returned must still spell the
     # bases of its recorded location ("keeps their recorded location consistent with the characters they contain")
@@ -316,7 +316,8 @@ def check_located(res, aname, N, bl, strand, scale=False):
         res.trans()
         c = dict(op="reverse_complement", a=a, b=b, **case)
         if o[0] != "ok" or str(o[1]) != revcomp(str(t)) or consistent(o[1], G) is not True:
-            res.deviation("reverse_complement", c, str(o[1]) if o[0] == "ok" else o[1], revcomp(str(t)), sig="rc-inconsistent")
+            res.deviation("reverse_complement", c, [str(o[1]), lib.canon_loc(o[1].location_on_parent)] if o[0] == "ok" else o[1],
+                          [revcomp(str(t)), list(reversed(Pm[a:b]))], sig="rc-inconsistent")
             continue
         rc = o[1]
         lrc = rc.location_on_parent
@@ -342,7 +343,14 @@ def check_located(res, aname, N, bl, strand, scale=False):
             if compatible:
                 res.nontriv(("append", aname, bl, strand, a, b, c_, d))
                 exp = text[a:b] + text[c_:d]
+                p1, p2 = Pm[a:b], Pm[c_:d]
+                in_order = (max(p1) < min(p2)) if strand == "+" else (min(p1) > max(p2))
                 if o[0] != "ok":
+                    if not in_order and isinstance(o[2], ValueError):
+                        # (overlapping blocks: consecutive pieces of the sequence need not be consecutive on the parent;
+                        # the documented refusal "must be to the left / right of the appended sequence")
+                        res.note("append", "refused-not-in-parent-order")
+                        continue
                     res.deviation("append", cs, o[1], exp, sig="append-raises")
                     continue
                 u = o[1]
@@ -356,6 +364,24 @@ def check_located(res, aname, N, bl, strand, scale=False):
                         res.deviation("append", cs, [str(o[1]), lib.canon_loc(o[1].location_on_parent)], "ValueError", sig="append-accepts-incompatible")
                 elif not isinstance(o[2], ValueError):
                     res.deviation("append", cs, o[1], "ValueError", sig="append-wrong-exc")
+    # concatenation with ANOTHER located sequence that lies beyond this one on the same chromosome (two blocks of its own):
+    # the recorded location lists the blocks of both, each base as often as it is read
+    if not scale:
+        G2 = genome_for(aname, N + 6, 0)
+        nb = ((N + 1, N + 2), (N + 3, N + 5))
+        s2, t2 = located(G2, alpha, bl, strand), located(G2, alpha, nb, strand)
+        first, second = (s2, t2) if strand == "+" else (t2, s2)
+        exp_pos = M.P(bl, strand) + M.P(nb, strand) if strand == "+" else M.P(nb, strand) + M.P(bl, strand)
+        o = lib.outcome(first.append, second)
+        res.trans()
+        cs = dict(op="append-neighbour", **case)
+        if o[0] != "ok":
+            res.deviation("append", cs, o[1], str(first) + str(second), sig="append-raises")
+        else:
+            u = o[1]
+            lu = u.location_on_parent
+            if str(u) != str(first) + str(second) or lu is None or M.P(lib.loc_blocks(lu), lib.loc_strand(lu)) != exp_pos or consistent(u, G2) is not True:
+                res.deviation("append", cs, [str(u), lib.canon_loc(lu)], [str(first) + str(second), exp_pos], sig="append-inconsistent")
     # data_only append and mismatching alphabets
     o = lib.outcome(s.append, s, data_only=True)
     res.trans()
@@ -394,6 +420,12 @@ def run_shard(shard):
                 for strand in "+-":
                     for aname in ("NT_EXTENDED_GAPPED", "NT_STRICT"):
                         check_extract_odd(res, aname, N, bl, strand, mode)
+                    if mode == "overlap" and len(bl) <= 2 and len({b_[0] for b_ in bl}) == len(bl):
+                        # a located sequence may sit on ANY block structure: slices, stepped slices, reverse complement and
+                        # concatenation on locations whose blocks overlap (a base read twice is recorded twice)
+                        # (blocks that share a START are the subject of known finding C03-same-start-revstrand, reported by
+                        # the extraction part above)
+                        check_located(res, "NT_STRICT", N, bl, strand)
     elif part == "scale":
         # the scale family (vlib/worlds.py): many blocks; cuts / slice bounds at (k<=6: within 1 of) block boundaries
         idx = 0
@@ -445,6 +477,25 @@ def replay(case):
     return devs or res.deviations
 
 
+def _m_located_overlap_order(d):
+    """a sequence located on OVERLAPPING blocks: a piece (slice, stepped slice, reverse complement, concatenation) records a
+    location that holds the right bases the right number of times, but - its blocks being kept sorted by start - not in the
+    order of the characters (the representation limit of C01-overlap-order, seen through Sequence)"""
+    c = d["case"]
+    if c.get("kind") != "located" or d["sig"] not in ("slice-inconsistent", "slice-open-inconsistent", "slice-step-inconsistent", "rc-inconsistent", "append-inconsistent"):
+        return False
+    bl = [tuple(b) for b in c["blocks"]]
+    if M.is_disjoint(bl):
+        return False
+    obs, exp = d["observed"], d["expected"]
+    if not (isinstance(obs, list) and isinstance(exp, list) and len(obs) == 2 and len(exp) == 2 and isinstance(obs[1], list)):
+        return False
+    if obs[0] != exp[0]:
+        return False  # the characters themselves must be right
+    got = M.P(tuple(tuple(b) for b in obs[1][1]), obs[1][2])
+    return got != list(exp[1]) and sorted(got) == sorted(exp[1])
+
+
 def _m_same_start_revstrand(d):
     # only the defect's own input class (overlapping layout with >= 2 blocks sharing a start) and its own shape (the
     # reverse-strand text is a permutation of the reverse complement: right bases, wrong order)
@@ -459,4 +510,4 @@ def _m_same_start_revstrand(d):
     )
 
 
-MATCHERS = {"c03_same_start_revstrand": _m_same_start_revstrand}
+MATCHERS = {"c03_same_start_revstrand": _m_same_start_revstrand, "c03_located_overlap_order": _m_located_overlap_order}
